@@ -264,6 +264,10 @@ def apply_edit(wire, e):
             del comps[i]
         elif e['op'] == 'dup':
             comps.insert(i, comps[i])
+        elif e['op'] in ('insd', 'insds'):
+            # one more component of the ParametersSha256Digest type (a forger's edit: nothing else changes)
+            val = hashlib.sha256(b'insd' + bytes([e['i']])).digest() if e['op'] == 'insd' else b'evil'
+            comps.insert(i, bytes([pk.T_PD, len(val)]) + val)
         elif e['op'] == 'swap':
             if comps[i] == comps[i + 1]:
                 return None
